@@ -98,6 +98,8 @@ FAMILIES = {
     "dense_cells": {"base": "harness:cuboid_hard_cells", "n": (12, 30), "cost": 2, "lattice": True,
                     "chain_cap": True, "cuboid": True, "dense": True},
     "cuboid_soft": {"base": "harness:cuboid_soft", "n": (2, 8), "cost": 1, "chain_cap": True, "cuboid": True},
+    "water_motion": {"base": "harness:water_motion", "n": (2, 4), "cost": 2},
+    "dip_atom_phase": {"base": "harness:dip_atom_phase", "n": (2, 4), "cost": 1},
     "hdd_cells": {"base": "harness:hard_disk_dipoles_cells", "n": (9, 9), "cost": 2, "lattice": True,
                   "fixed_n": True, "chain_cap": True},
 }
@@ -169,7 +171,13 @@ def generate(rng, family, package_dir, events=2000, vary=True, shipped_n=False):
         for section in find_section_with(sections, "sampling_interval"):
             if rng.random() < 0.7:
                 value = float(sections[section]["sampling_interval"]) * rng.choice([0.13, 0.5, 1.0, 2.3])
+                if rng.random() < 0.35:
+                    # awkward decimals (not representable, sums that round onto an integer)
+                    value = rng.choice([0.3, 0.05, 0.15, 0.1, 0.7, 1.1, 0.25, 0.2]) * rng.choice([1.0, 1.0, 10.0])
                 set_out.setdefault(section, {})["sampling_interval"] = repr(value)
+            if rng.random() < 0.3:
+                current = sections[section].get("first_event_time_zero", "false").lower() in ("true", "1", "yes")
+                set_out.setdefault(section, {})["first_event_time_zero"] = "false" if current else "true"
         for section in find_section_with(sections, "chain_time"):
             if rng.random() < 0.7:
                 value = float(sections[section]["chain_time"]) * rng.choice(
